@@ -97,6 +97,7 @@ void ModelClient::do_probe(int f, int fillchars)
 
 void ModelClient::do_rawlogin(const std::string &mode, const Addr *spoof)
 {
+	used_raw = true;
 	Bytes h;
 	if (mode == "good" && knows_password) h = login_hash(seed + 1);
 	else if (mode == "dnshash") h = login_hash(seed);
@@ -109,11 +110,13 @@ void ModelClient::do_rawlogin(const std::string &mode, const Addr *spoof)
 }
 void ModelClient::do_rawping()
 {
+	used_raw = true;
 	Addr dst = w->S.hosts[w->srv_host].ip4; dst.port = 53;
 	w->S.send_from(sock, dst, raw_frame(3, userid, Bytes()));
 }
 void ModelClient::do_rawdata(const Bytes &pkt)
 {
+	used_raw = true;
 	Addr dst = w->S.hosts[w->srv_host].ip4; dst.port = 53;
 	w->S.send_from(sock, dst, raw_frame(2, userid, z_compress(pkt)));
 }
@@ -121,7 +124,7 @@ void ModelClient::do_rawdata(const Bytes &pkt)
 void ModelClient::send_packet(const Bytes &frame)
 {
 	out_q.push_back(frame);
-	if (!out_active && autopilot && logged_in) { out_cur = z_compress(out_q.front()); out_off = 0; out_frag = 0; out_seq = (out_seq + 1) & 7; out_active = true; out_resend = 0; send_chunk(false); }
+	if (!out_active && autopilot && logged_in && !upenc_pending) { out_cur = z_compress(out_q.front()); out_off = 0; out_frag = 0; out_seq = (out_seq + 1) & 7; out_active = true; out_resend = 0; send_chunk(false); }
 }
 
 void ModelClient::send_chunk(bool resend)
@@ -210,7 +213,7 @@ void ModelClient::on_rx(const Dgram &d)
 	switch (r.cmd) {
 	case 'v':
 		if (p.size() >= 9 && !memcmp(p.data(), "VACK", 4)) {
-			seed = ((uint32_t)p[4] << 24) | (p[5] << 16) | (p[6] << 8) | p[7]; userid = p[8]; have_seed = true; logged_in = false; raw = false;
+			seed = ((uint32_t)p[4] << 24) | (p[5] << 16) | (p[6] << 8) | p[7]; userid = p[8]; have_seed = true; logged_in = false; raw = false; up_codec = 5; upenc_pending = false;
 			w->probes["mc.vack"]++;
 			if (autopilot && !stopped) do_login(knows_password ? "good" : "bad");
 		} else if (p.size() >= 4 && !memcmp(p.data(), "VFUL", 4)) w->probes["mc.vful"]++;
@@ -224,13 +227,20 @@ void ModelClient::on_rx(const Dgram &d)
 			w->probes["mc.login_ok"]++;
 			if (autopilot && !stopped) {
 				if (fragsize) do_setfrag(fragsize);
+				if (want_upenc && want_upenc != 5) { do_simple('s', std::string(1, b32chr(userid)) + std::string(1, b32chr(want_upenc))); upenc_pending = true; upenc_sent_at = w->S.now; }
 				if (want_downenc) do_simple('o', std::string(1, b32chr(userid)) + std::string(1, want_downenc));
 				if (lazy) do_simple('o', std::string(1, b32chr(userid)) + "l");
 				do_ping();
-				if (!out_q.empty() && !out_active) { Bytes f0 = out_q.front(); out_q.pop_front(); send_packet(f0); }
+				if (!out_q.empty() && !out_active && !upenc_pending) { Bytes f0 = out_q.front(); out_q.pop_front(); send_packet(f0); }
 			}
 		} else if (s == "LNAK") w->probes["mc.lnak"]++;
 		else if (s == "BADIP") w->probes["mc.login_badip"]++;
+		break; }
+	case 's': {
+		int c = codec_from_name(std::string(p.begin(), p.end()));
+		if (c) { up_codec = c; w->probes["mc.upenc_switched"]++; }
+		upenc_pending = false;
+		if (autopilot && !stopped && logged_in && !out_active && !out_q.empty()) { Bytes f0 = out_q.front(); out_q.pop_front(); send_packet(f0); }
 		break; }
 	case 'p': case 'd':
 		handle_data_reply(r);
@@ -242,6 +252,7 @@ void ModelClient::on_rx(const Dgram &d)
 void ModelClient::tick()
 {
 	if (stopped || !autopilot || w->S.now > auto_until) return;
+	if (logged_in && upenc_pending && w->S.now - upenc_sent_at >= 2000000) { do_simple('s', std::string(1, b32chr(userid)) + std::string(1, b32chr(want_upenc))); upenc_sent_at = w->S.now; }
 	if (logged_in) {
 		if (out_active && w->S.now - out_gen >= 900000) {
 			if (++out_resend > 3) { out_q.pop_front(); out_active = false; w->probes["mc.up_gave_up"]++; }
@@ -278,6 +289,7 @@ ModelClient *Models::add(const std::string &name, const J &c)
 	mc->lazy = c.getb("lazy", false);
 	mc->fragsize = (int)c.geti("fragsize", 0);
 	std::string de = c.gets("downenc"); if (!de.empty()) mc->want_downenc = de[0];
+	mc->want_upenc = (int)c.geti("upenc", 0);
 	mc->chunk_cap = (int)c.geti("chunk_cap", 0);
 	mc->next_id = (uint16_t)(1000 + clients.size() * 977);
 	if (c.has("auto_until_s")) mc->auto_until = (uint64_t)(c.getd("auto_until_s") * 1e6);
